@@ -1166,6 +1166,114 @@ def try_paths_nonblocking(ctx, rid, classes):
 RCU = "gmlc::libguarded::rcu_list"
 
 
+def rcu_writer_mutexes(ctx):
+    """names of the mutex members of rcu_list (one on the reference tree)"""
+    out = []
+    for r in ctx.fb.records(tmpl=RCU):
+        for fl in r.fields:
+            if is_mutex_type(fl["type"]) and fl["name"] not in out:
+                out.append(fl["name"])
+    return out
+
+
+def load_feeds_store(f, op):
+    """does the value of atomic load `op` travel into a later store of f (as the stored value or as the object stored
+    through)?  A sampled link that only decides a branch or becomes the result does not re-link anything."""
+    from .engine import atomic_ops
+    var = None
+    par = f.par(op["st"])
+    while par is not None and par["k"] not in ("DeclStmt", "CompoundStmt", "IfStmt", "WhileStmt", "ForStmt", "ReturnStmt"):
+        par = f.par(par)
+    if par is not None and par["k"] == "DeclStmt":
+        for d in par["decls"]:
+            if d.get("init") and any(x["id"] == op["st"]["id"] for x in [f.s(d["init"])] + list(f.descendants(f.s(d["init"])))):
+                var = d["id"]
+    elif par is not None and par["k"] in ("IfStmt", "WhileStmt", "ForStmt", "ReturnStmt"):
+        return False        # used in a condition / returned
+    if var is None:
+        return True
+    vs = {var}
+    grown = True
+    while grown:
+        grown = False
+        for s2 in f.stmts.values():
+            if s2["k"] == "DeclStmt":
+                for d2 in s2["decls"]:
+                    if d2["id"] not in vs and d2.get("init") and any(
+                            x["k"] == "DeclRefExpr" and x["d"].get("id") in vs for x in f.descendants(f.s(d2["init"]))):
+                        vs.add(d2["id"])
+                        grown = True
+    for o2 in atomic_ops(f):
+        if o2["op"] not in ("store", "rmw", "cas"):
+            continue
+        for sub_ in ([o2.get("value")] if o2.get("value") is not None else []) + [f.s(o2["st"].get("obj"))]:
+            if sub_ is not None and any(x["k"] == "DeclRefExpr" and x["d"].get("id") in vs for x in [sub_] + list(f.descendants(sub_))):
+                return True
+    return False
+
+
+def _rcu_multi_lockset(ctx, rid, mutexes):
+    """several writer mutexes: each link field (m_head, m_tail, node::next, node::back) and node::deleted needs ONE mutex
+    that every store to it holds.  Decided as far as a flow-insensitive lock state allows: a field whose stores do not even
+    share a POSSIBLY held mutex is reported; a field whose common mutex is held only on some paths is undecided."""
+    from .engine import atomic_ops, atomic_field_of
+    from .rcu import insertion_body, node_names
+    fb, eng = ctx.fb, ctx.eng
+    sites = {}
+    for f in fb.functions(rec=RCU):
+        if f.kind in ("ctor", "dtor"):
+            continue
+        la = eng.locks(f)
+        fresh = set()
+        ib = insertion_body(f)
+        if ib is not None and ib[0] is f:
+            fresh = node_names(f, ib[1])
+        for op in atomic_ops(f):
+            if op["op"] not in ("store", "rmw", "cas") or not re.search(r"::node \*>$", op["objtype"]):
+                continue
+            fld = atomic_field_of(f, op)
+            if fld is None:
+                continue
+            if any((op.get("obj") or "").startswith(x + "->") or (op.get("obj") or "").startswith(x + ".") for x in fresh):
+                continue        # links of the node being built: not shared yet
+            pos = f.pos_of(op["st"])
+            st_ = la.state_at(pos) if pos is not None else {}
+            may = {v.mutex for v in st_.values() if v.mutex and v.mode == "X" and v.st in (HELD, MAYBE)}
+            must = {v.mutex for v in st_.values() if v.mutex and v.mode == "X" and v.st == HELD}
+            sites.setdefault(fld[1], []).append((f, op, may, must))
+    n = 0
+    undecided = []
+    for fld, ss in sorted(sites.items()):
+        may_c = set.intersection(*[s[2] for s in ss])
+        must_c = set.intersection(*[s[3] for s in ss])
+        n += 1
+        if not may_c:
+            cnt = {}
+            for s in ss:
+                for m in s[2]:
+                    cnt[m] = cnt.get(m, 0) + 1
+            top = max(cnt, key=cnt.get) if cnt else None
+            bad = [s for s in ss if top not in s[2]] or ss
+            f, op = bad[0][0], bad[0][1]
+            ctx.ob(rid, False, f.loc(op["st"]), "every store to %s is made under one and the same writer mutex" % fld,
+                   "%s stores %s holding %s, other writers of %s hold %s: two writers can link through this field at the same time and "
+                   "one element is lost" % (f.name, fld, ", ".join(sorted(m[5:] for m in bad[0][2])) or "nothing", fld,
+                                           (top or "?")[5:]), fn=f.label, inst=f.qname)
+        elif not must_c:
+            undecided.append(fld)
+            ctx.ob(rid, True, ss[0][0].loc(ss[0][1]["st"]), "the stores to %s share a possibly held writer mutex (%s)" % (
+                fld, ", ".join(sorted(m[5:] for m in may_c))), "")
+        else:
+            ctx.ob(rid, True, ss[0][0].loc(ss[0][1]["st"]), "every store to %s is made under %s" % (fld, ", ".join(sorted(m[5:] for m in must_c))), "")
+    if undecided:
+        ctx.unknown("%s: rcu_list has several writer mutexes (%s); for %s the mutex the stores have in common is taken on some paths "
+                    "only - whether those are the paths that store is not decided" % (rid, ", ".join(mutexes), ", ".join(undecided)))
+    else:
+        ctx.unknown("%s: rcu_list has several writer mutexes (%s); the rules that serialise writers through m_write_mutex alone do not "
+                    "describe that representation" % (rid, ", ".join(mutexes)))
+    return n
+
+
 def rcu_writer_guard(ctx, rid, floor=20, loads=True):
     """every store to m_head / m_tail / node::next / node::back, every load of them made by a function that also
     stores (a writer's read-modify-write of the structure must not be split by another writer) and every access
@@ -1177,6 +1285,9 @@ def rcu_writer_guard(ctx, rid, floor=20, loads=True):
              "test of node::deleted happen with m_write_mutex held", floor=floor)
     fb, eng = ctx.fb, ctx.eng
     n = 0
+    mx = rcu_writer_mutexes(ctx)
+    if len(mx) > 1:
+        return _rcu_multi_lockset(ctx, rid, mx)
     for f in fb.functions(rec=RCU):
         if f.kind in ("ctor", "dtor"):
             continue
